@@ -11,6 +11,10 @@ void gstuff_autorecv_setbuf_v1(struct gstuff_autorecv_v1 *autom,
                                void *buf,
                                int len)
 {
+    // Новый буфер - новый приём: автомат возвращается в исходное состояние
+    // (иначе состояние "принят STUFF" или "пропуск до разделителя"
+    // переживало бы смену буфера, а у объекта без обнуления оно не задано).
+    autom->state = 0;
     sline_init(&autom->line, buf, len);
     gstuff_autorecv_reset_v1(autom);
 }
